@@ -8,6 +8,7 @@ checks = {
  "C05": ("pipeline-sim", "4 (C05)", "deterministic simulation: seeded schedules + end-of-stream around the strategy warm-up; count/alphabet/Hold-through-warm-up oracle on the action stream"),
  "C09": ("pipeline-sim", "4 (C09)", "deterministic simulation: several Compute/Report calls on one instance, sequential or interleaved stage by stage by the seeded controller; oracle = fresh-instance results; (race clause: Go race detector on free-running runs of the same workloads)"),
  "C11": ("io-sim", "4 (C11)", "deterministic simulation: histories of write/append/append-or-write on one path with row producers and reader goroutines under the seeded controller, fragmenting readers; model-file oracle after every operation, bit-exact"),
+ "C19": ("io-sim", "4 (C19)", "deterministic simulation with fault injection: documents with drawn byte-level faults delivered in drawn fragments with read errors at any offset, scripted HTTP statuses / transport errors / body errors, unreadable files; captured panics, exact census, independent reference decode of the well-formed prefix"),
  "C14": ("pipeline-sim", "4 (C14)", "deterministic simulation: the real template renders the report as a lock-step single-task consumer of all column channels under seeded schedules; closed-channel probes on column reads, reflection drain of the column channels after the last row, exact census, rendered rows compared with the strategy's own Compute/Outcome"),
  "C16": ("pipeline-sim", "4 (C16)", "deterministic simulation: seeded schedules, independently placed ends of the input streams, capacities; exact slice-model oracle plus exact census (longer inputs consumed, outputs closed, no task left)"),
 }
@@ -22,7 +23,6 @@ na = {
  "C15": "range/ordering of indicator values is a pure function of the inputs",
  "C17": "Ring and Bst are single-threaded in-memory data structures without I/O; an operation sequence is an input, there is no interleaving or fault to inject",
  "C18": "scale covariance is a relation between two runs on related inputs; pure function of inputs",
- "C19": "not claimed yet in this revision (check under construction)",
 }
 ENV = "GOFLAGS=-mod=mod GOPROXY=off GOSUMDB=off GOTOOLCHAIN=local"
 m = {
